@@ -228,53 +228,170 @@ func ruleNewAllotmentShape(c *core.Ctx) {
 	}
 	info := d.Pkg.TypesInfo
 	key := declKey(d)
-	// sum > 1 refused
-	over, twoRem, complement, summed := false, false, false, false
+	// the running sum: the *big.Rat local that accumulates `sum.Add(sum, x)`
+	var sumObj types.Object
 	ast.Inspect(d.Decl.Body, func(n ast.Node) bool {
-		switch x := n.(type) {
-		case *ast.IfStmt:
-			if !astx.Terminates(info, x.Body.List) {
-				return true
-			}
-			r, _ := x.Body.List[len(x.Body.List)-1].(*ast.ReturnStmt)
-			if r == nil || isErrorReturn(info, d.Decl.Body, r) != 1 {
-				return true
-			}
-			if lhs, op := ratCmp(x.Cond); lhs == "total~big.NewRat(1,1)" && (op == "==1" || op == ">0") {
-				over = len(factsNoErr(factStrings(info, d.Decl.Body, x.Pos()))) == 0
-			}
-			if nospace(types.ExprString(x.Cond)) == "remainingIdx!=nil" {
-				fs := factStrings(info, d.Decl.Body, x.Pos())
-				twoRem = hasFact(fs, ".Remaining", true)
-			}
-		case *ast.CallExpr:
-			if f := astx.Callee(info, x); f != nil && f.Pkg() != nil && f.Pkg().Path() == "math/big" {
+		call, ok := n.(*ast.CallExpr)
+		if !ok || len(call.Args) != 2 {
+			return true
+		}
+		if f := astx.Callee(info, call); f == nil || f.Name() != "Add" || f.Pkg() == nil || f.Pkg().Path() != "math/big" {
+			return true
+		}
+		r, okR := ast.Unparen(recvExpr(call)).(*ast.Ident)
+		a0, okA := ast.Unparen(call.Args[0]).(*ast.Ident)
+		if okR && okA && info.ObjectOf(r) == info.ObjectOf(a0) {
+			sumObj = info.ObjectOf(r)
+		}
+		return true
+	})
+	if sumObj == nil {
+		for _, k := range []string{":sum-at-most-one", ":single-remaining", ":remaining-is-complement"} {
+			c.Unrecognised("SHAPE/new-allotment", key+k, pos(c, d.Decl), "no running sum of the portions (`sum.Add(sum, x)` on a big.Rat local) found")
+		}
+	} else {
+		isSum := func(e ast.Expr) bool {
+			id, ok := ast.Unparen(e).(*ast.Ident)
+			return ok && info.ObjectOf(id) == sumObj
+		}
+		env := newOriginEnv(c, d)
+		over, twoRem, complement, summed := 0, 0, 0, 0 // +1 as required, -1 positively wrong
+		ast.Inspect(d.Decl.Body, func(n ast.Node) bool {
+			switch x := n.(type) {
+			case *ast.ReturnStmt:
+				if isErrorReturn(info, d.Decl.Body, x) != 1 {
+					return true
+				}
+				fs := xfactsAt(info, d.Decl.Body, x.Pos())
+				hasRem, other := false, 0
+				for _, ft := range fs {
+					if isErrNilTest(info, ft.Cond) {
+						continue
+					}
+					// sum.Cmp(1) == 1 / > 0
+					if be, ok := ft.Cond.(*ast.BinaryExpr); ok {
+						if call, ok := ast.Unparen(be.X).(*ast.CallExpr); ok && len(call.Args) == 1 {
+							if se, ok := call.Fun.(*ast.SelectorExpr); ok && se.Sel.Name == "Cmp" && isSum(se.X) && env.origin(call.Args[0]) == "NewRat(1,1)" {
+								op := be.Op.String() + nospace(types.ExprString(be.Y))
+								above := (ft.Positive && (op == "==1" || op == ">0")) || (!ft.Positive && (op == "<=0" || op == "!=1" || op == "<1"))
+								if above {
+									if over == 0 {
+										over = 1
+									}
+								} else if ft.Positive && (op == ">=0" || op == "==0") {
+									over = -1 // a sum of exactly one is refused
+								}
+								continue
+							}
+						}
+					}
+					if strings.HasSuffix(nospace(types.ExprString(ft.Cond)), ".Remaining") {
+						if ft.Positive {
+							hasRem = true
+						}
+						continue
+					}
+					if ft.Positive {
+						other++
+					}
+				}
+				if hasRem && other >= 1 && twoRem == 0 {
+					twoRem = 1
+				}
+			case *ast.CallExpr:
+				f := astx.Callee(info, x)
+				if f == nil || f.Pkg() == nil || f.Pkg().Path() != "math/big" || len(x.Args) != 2 {
+					return true
+				}
 				switch f.Name() {
 				case "Sub":
-					// remaining.Sub(remaining, total) with remaining := NewRat(1,1)
-					if len(x.Args) == 2 && types.ExprString(x.Args[1]) == "total" && types.ExprString(recvExpr(x)) == types.ExprString(x.Args[0]) {
-						complement = true
+					// rem.Sub(rem, sum) with rem := NewRat(1,1)
+					if isSum(x.Args[1]) && types.ExprString(recvExpr(x)) == types.ExprString(x.Args[0]) {
+						if env.origin(x.Args[0]) == "NewRat(1,1)" {
+							complement = 1
+						} else {
+							complement = -1
+						}
 					}
 				case "Add":
-					if len(x.Args) == 2 && types.ExprString(recvExpr(x)) == "total" {
-						fs := factStrings(info, d.Decl.Body, x.Pos())
-						summed = hasFact(fs, ".Remaining", false)
+					if isSum(recvExpr(x)) {
+						neg := false
+						for _, ft := range xfactsAt(info, d.Decl.Body, x.Pos()) {
+							if strings.HasSuffix(nospace(types.ExprString(ft.Cond)), ".Remaining") && !ft.Positive {
+								neg = true
+							}
+						}
+						if neg {
+							summed = 1
+						}
 					}
 				}
 			}
+			return true
+		})
+		verdict := func(k string, st int, okText, failText string) {
+			switch {
+			case st > 0:
+				c.Pass("SHAPE/new-allotment", key+k, pos(c, d.Decl), okText)
+			case st < 0:
+				c.Fail("SHAPE/new-allotment", key+k, pos(c, d.Decl), failText)
+			default:
+				c.Unrecognised("SHAPE/new-allotment", key+k, pos(c, d.Decl), "not in a shape the rule reads: "+okText)
+			}
 		}
-		return true
-	})
-	okOne := false
-	ast.Inspect(d.Decl.Body, func(n ast.Node) bool {
-		if as, ok := n.(*ast.AssignStmt); ok && len(as.Lhs) == 1 && len(as.Rhs) == 1 && types.ExprString(as.Lhs[0]) == "remaining" && nospace(types.ExprString(as.Rhs[0])) == "big.NewRat(1,1)" {
-			okOne = true
+		// a missing refusal is positive evidence only when no error return mentions the sum at all
+		if over == 0 {
+			mentions := false
+			ast.Inspect(d.Decl.Body, func(n ast.Node) bool {
+				if call, ok := n.(*ast.CallExpr); ok {
+					if se, ok := call.Fun.(*ast.SelectorExpr); ok && se.Sel.Name == "Cmp" && isSum(se.X) {
+						mentions = true
+					}
+				}
+				return true
+			})
+			if !mentions {
+				over = -1
+			}
 		}
-		return true
-	})
-	c.Check(over, "SHAPE/new-allotment", key+":sum-at-most-one", pos(c, d.Decl), "sum > 1 → error", "NewAllotment accepts portions that sum to more than 100%: the allocated parts exceed the amount")
-	c.Check(twoRem, "SHAPE/new-allotment", key+":single-remaining", pos(c, d.Decl), "second `remaining` → error", "NewAllotment accepts two `remaining` portions")
-	c.Check(complement && okOne && summed, "SHAPE/new-allotment", key+":remaining-is-complement", pos(c, d.Decl), "remaining = 1 − Σ specific", "the `remaining` portion is not one minus the sum of the specific portions (every specific portion added to the sum): the portions no longer sum to 100%")
+		verdict(":sum-at-most-one", over, "sum > 1 → error", "NewAllotment accepts portions that sum to more than 100%: the allocated parts exceed the amount")
+		if twoRem == 0 {
+			// no refusal under `.Remaining` at all
+			refusals := 0
+			ast.Inspect(d.Decl.Body, func(n ast.Node) bool {
+				if r, ok := n.(*ast.ReturnStmt); ok && isErrorReturn(info, d.Decl.Body, r) == 1 {
+					for _, ft := range xfactsAt(info, d.Decl.Body, r.Pos()) {
+						if strings.HasSuffix(nospace(types.ExprString(ft.Cond)), ".Remaining") && ft.Positive {
+							refusals++
+						}
+					}
+				}
+				return true
+			})
+			if refusals == 0 {
+				twoRem = -1
+			}
+		}
+		verdict(":single-remaining", twoRem, "second `remaining` → error", "NewAllotment accepts two `remaining` portions")
+		comp := 0
+		switch {
+		case complement < 0:
+			comp = -1
+		case complement > 0 && summed > 0:
+			comp = 1
+		case complement == 0 && summed > 0:
+			// the sum exists but nothing subtracts it from one
+			subs := 0
+			for _, call := range callsTo(info, d.Decl.Body, named("Sub")) {
+				_ = call
+				subs++
+			}
+			if subs == 0 {
+				comp = -1
+			}
+		}
+		verdict(":remaining-is-complement", comp, "remaining = 1 − Σ specific", "the `remaining` portion is not one minus the sum of the specific portions (every specific portion added to the sum): the portions no longer sum to 100%")
+	}
 	// specific portions lie in [0,1]
 	for _, name := range []string{"NewPortionSpecific", "ValidatePortionSpecific"} {
 		p := fn(c, pkgMachine, "", name)
